@@ -51,6 +51,7 @@ class Lemma:
     claim = ""
     induction = ()
     measure = None
+    uses = ()            # ((LemmaClass, {param: expression}), ...): instances of already proved lemmas
 
 
 def verify_lemmas(ctx, world, lemmas):
@@ -81,6 +82,15 @@ def verify_lemmas(ctx, world, lemmas):
                     fr.vars.clear()
                     fr.vars.update(base)
                     ex.assume(z3.Implies(z3.And(mi >= 0, mi < m0, *pre), cl))
+            base2 = dict(fr.vars)
+            for other, inst in lm.uses:
+                newvals = {k: ex.eval_text(v) for k, v in inst.items()}
+                fr.vars.update(newvals)
+                pre = [ex.truth(ex.eval_text(r)) for r in other.requires]
+                cl = ex.truth(ex.eval_text(other.claim))
+                fr.vars.clear()
+                fr.vars.update(base2)
+                ex.assume(z3.Implies(z3.And(*pre) if pre else z3.BoolVal(True), cl))
             ex.oblige("lemma %s: %s" % (lm.name, lm.claim), ex.truth(ex.eval_text(lm.claim)), kind="lemma")
         except Unsupported as e:
             ctx.mark_unproved("lemma:" + lm.name, "unsupported: %s" % e)
